@@ -116,5 +116,39 @@ PROPS.update({
         "not_decided": ["flush points in the run loop and Logger dispatch: contracts not finished in this commit"],
     },
 })
+RUNNER_ELEMS = ["SequentialRunner._handle_orders[normal,Order]", "SequentialRunner._handle_orders[normal,Cancel]", "SequentialRunner._handle_orders[hft,Order]", "SequentialRunner._handle_orders[hft,Cancel]"]
+SKELETON = ["SequentialRunner._iterate_market_updates[step]", "SequentialRunner._run[session]", "SequentialRunner._run[frame]"]
+TRIGGER_TASKS = ["Simulator._trigger_event_before_order", "Simulator._trigger_event_after_order", "Simulator._trigger_event_before_cancel", "Simulator._trigger_event_after_cancel",
+                 "Simulator._trigger_event_after_execution", "Simulator._trigger_event_before_session", "Simulator._trigger_event_after_session",
+                 "Simulator._trigger_event_before_step_for_market", "Simulator._trigger_event_after_step_for_market"]
+PROPS.update({
+    "C09": {
+        "level": "proof",
+        "level_text": "placement and execution gates, caps (normal and high-frequency), one consultation per agent, session parsing, and the execution-gate invariant of the halt rule: trace contracts and loop invariants on the runner",
+        "level_note": COMMON_NOTE + "; for-each rule for loops whose body is verified for an arbitrary element; events touch only what DESIGN 3.5 allows; 'with the configured probability' is the event rate >= u for a trusted uniform u",
+        "tasks": RUNNER_ELEMS + ["SequentialRunner._collect_orders_from_normal_agents[Order]", "SequentialRunner._collect_orders_from_normal_agents[Cancel]",
+                                 "SequentialRunner._handle_orders[hft-phase,Order]", "SequentialRunner._handle_orders[hft-phase,Cancel]", "Session.setup",
+                                 "TradingHaltRule.hooked_after_execution", "TradingHaltRule.hooked_before_step_for_market"] + SKELETON,
+        "not_decided": ["the probability of the high-frequency phase (only the event rate >= u is decided)"],
+    },
+    "C11": {
+        "level": "proof",
+        "level_text": "per-order trace pattern of _handle_orders proved for the normal and the duplicated high-frequency path: owner notified once with the market's log; after Hold(logs), buyer and seller of every fill notified once each",
+        "level_note": COMMON_NOTE + "; for-each rule",
+        "tasks": RUNNER_ELEMS,
+        "not_decided": [],
+    },
+    "C13": {
+        "level": "proof",
+        "level_text": "trigger functions select exactly the hooks of the None bucket and of the occurrence's time bucket (class/instance filter for market steps); call sites in the run loop; registration: no double registration, one entry per key, keys distinct",
+        "level_note": COMMON_NOTE + "; for-each rule",
+        "tasks": TRIGGER_TASKS + ["Simulator._add_event", "Simulator._add_event[per-key]", "Simulator._add_event[keys-distinct]"] + RUNNER_ELEMS + SKELETON +
+                 ["PriceLimitRule.hook_registration", "OrderMistakeShock.hook_registration", "FundamentalPriceShock.hook_registration"],
+        "not_decided": [],
+    },
+})
+PROPS["C10"]["tasks"] += SKELETON
+PROPS["C05"]["tasks"] += RUNNER_ELEMS
+PROPS["C06"]["tasks"] += SKELETON
 for k in PROPS:
     NOT_CLAIMED.pop(k, None)
